@@ -255,7 +255,12 @@ class ExcFlow(object):
         self.bases = dict(BUILTIN_BASES)
         self.bases.update(repo_exc_bases)
         self.implicit = implicit
-        self.safe = safe or {}
+        # suppression keys are written as source text; they are compared in normal form (sa/canon.py) like the trees
+        from . import canon as _cn
+        self.safe = {}
+        for (fq, text), why in (safe or {}).items():
+            nt = _cn.normal_text(text)
+            self.safe[(fq, nt.strip() if nt else text)] = why
         self.used_safe = {}
         self.summaries = {}
 
@@ -421,51 +426,43 @@ class ExcFlow(object):
 
     # -- guards that discharge implicit sites ----------------------------------------------------
     def discharged(self, f, node, cls, desc):
-        conds = []
-        for t, pol, how in path_conditions(f.module, f, node):
-            # a true conjunction makes every conjunct true; a false disjunction makes every disjunct false
-            if isinstance(t, ast.BoolOp) and ((isinstance(t.op, ast.And) and pol) or (isinstance(t.op, ast.Or) and not pol)):
-                conds.extend((v, pol, how) for v in t.values)
-            else:
-                conds.append((t, pol, how))
+        """Path conditions arrive in atomic normal form (pyfront.atomise): conjunctions split, `not` removed, a failed comparison
+        turned into the opposite comparison that holds; only `<`, `<=`, `==`, `!=`, `in`, `not in`, `is`, `is not` occur."""
+        import re
+
+        def txt(e):
+            return re.sub(r'[\s()]', '', unparse(e))
+        conds = [(t, pol, how) for t, pol, how in path_conditions(f.module, f, node)]
         if cls == 'ValueError' and desc.startswith('int()') and isinstance(node, ast.Call) and node.args:
             arg = unparse(node.args[0])
             for t, pol, how in conds:
-                if how.startswith('early-exit') and pol is False and unparse(t) in ('not _is_int(%s)' % arg,):
-                    return '_is_int guard'
                 if pol and unparse(t) == '_is_int(%s)' % arg:
                     return '_is_int guard'
         if cls == 'ValueError' and desc.startswith('unpacking'):
             n = len(node.targets[0].elts)
             v = unparse(node.value)
+            base = v[:-len('[:%d]' % n)] if v.endswith('[:%d]' % n) else None
             for t, pol, how in conds:
-                s = unparse(t).replace(' ', '')
-                if how.startswith('early-exit') and pol is False and s == ('len(%s)!=%d' % (v, n)).replace(' ', ''):
+                s = txt(t)
+                if pol and s in (txt(ast.parse('len(%s)==%d' % (v, n)).body[0].value), txt(ast.parse('%d==len(%s)' % (n, v)).body[0].value)):
                     return 'len guard'
-                # `a, b = words[:2]` after `if len(words) < 2: raise`
-                base = v[:-len('[:%d]' % n)] if v.endswith('[:%d]' % n) else None
-                if base and how.startswith('early-exit') and pol is False and s == ('len(%s)<%d' % (base, n)).replace(' ', ''):
+                # `a, b = words[:2]` after `if len(words) < 2: raise`  (fact: 2 <= len(words))
+                if base and pol and how.startswith('early-exit') and s in ('%d<=len%s' % (n, base), '%d<len%s' % (n - 1, base)):
                     return 'len guard'
             return None
         if cls == 'KeyError':
             base, key = unparse(node.value), unparse(node.slice)
             for t, pol, how in conds:
-                s = unparse(t)
-                if pol and s == '%s in %s' % (key, base):
-                    return 'membership guard'
-                if (not pol) and s == '%s not in %s' % (key, base) and how.startswith('early-exit'):
+                if pol and unparse(t) == '%s in %s' % (key, base):
                     return 'membership guard'
             return None
         if cls == 'struct.error' and desc == 'struct.unpack' and len(node.args) == 2:
-            import re
-            sl = re.sub(r'[\s()]', '', unparse(node.args[1]))
+            sl = txt(node.args[1])
             mm = re.match(r'^(\w+)\[(\w+):\2\+(\w+)\]$', sl)
             if mm:
                 data, pos, size = mm.groups()
                 for t, pol, how in conds:
-                    s = re.sub(r'[\s()]', '', unparse(t))
-                    if how.startswith('early-exit:raise') and pol is False and s in ('len%s-%s<%s' % (data, pos, size),
-                                                                                       '%s>len%s-%s' % (size, data, pos)):
+                    if how.startswith('early-exit:raise') and pol and txt(t) == '%s<=len%s-%s' % (size, data, pos):
                         return 'remaining-length guard'
             return None
         return None
